@@ -82,3 +82,20 @@ pub fn h_c18_reenter_after_typing_over() {
     check("C18.typed_over.cell_reproduced", ok & (cell_at(&model, r, c) == cell) & (model.get_localized_cell_content(0, r, c) == Ok(shown)));
     reach("C18.typed_over");
 }
+
+/// the same in the other display languages (de / es / fr / it, solver chooses): booleans and errors are shown with the
+/// language's words and must come back as booleans and errors
+const C18_LANGS: [&str; 4] = ["de", "es", "fr", "it"];
+pub fn h_c18_reenter_other_languages() {
+    let (mut model, r, c, cell) = menu_cell_model(false);
+    let l = any_usize_to(C18_LANGS.len() - 1);
+    if model.set_language(C18_LANGS[l]).is_err() { check("C18.reenter_languages.language_accepted", false); return; }
+    let shown = match model.get_localized_cell_content(0, r, c) { Ok(s) => s, Err(_) => { check("C18.reenter_languages.cell_reproduced", false); return; } };
+    let ok = model.set_user_input(0, r, c, shown.clone()).is_ok();
+    let same = match (&cell, cell_at(&model, r, c)) {
+        (Cell::EmptyCell { s }, Some(Cell::EmptyCell { s: s2 })) => *s == s2,
+        (_, got) => got == Some(cell.clone()),
+    };
+    check("C18.reenter_languages.cell_reproduced", ok & same & (model.get_localized_cell_content(0, r, c) == Ok(shown)));
+    reach("C18.reenter_languages");
+}
